@@ -11,6 +11,7 @@
   admissible renderings of the same tokens with different trivia lex identically.
 -/
 import Pyab.Proofs.LexNoSkip
+import Pyab.Properties.EvaluatorPremise
 import Pyab.Properties.C08_trivia
 import Pyab.Properties.C08_roundtrip
 import Pyab.Generated.LexRules
